@@ -29,6 +29,51 @@ def cfg(reset, hist, extra=""):
 TREE_RESET = ["clr", "bg"]
 
 
+def core_vocabulary():
+    """Everything the LoggCore worker can do, for use as history in front of a probe."""
+    import c02
+    import c07
+    import c10
+    import c13
+    c = c10.rand_config()
+    c07c = c07.config(False)
+    c.update(groups=c07.GROUPS, ctx_vals=c07.CTX_VALS, call_args=c07.CALL_ARGS, tokens=c02.TOKENS, eps=c02.EPS,
+             msg_classes=c02.MSG, log_sevs=list(range(0, 12)), fail_sets=c13.fail_sets(True), rand_max_args=6)
+    c["setter_args"] = dict(c["setter_args"])
+    c["setter_args"].update({"Attrs": c["setter_args"]["Attrs"] + [(3, -1), (5, -2), (7, -5)], "Attrs0": [(0, 0), (1, 0)],
+                             "AddLevelWriter": [(1, 4), (2, 3)], "RemoveWriter": [(1, 0)], "ResetLevelWriters": [(0, 0)]})
+    c["wlevels"] = [3, 4]
+    c["acts"] = ["Set", "Set", "With", "New", "NewDetached", "PkgSetLevel", "SetDefault", "LogF", "LogA", "LogA", "LogM", "LogM",
+                 "SetAttrsR", "Flags", "PkgLevel", "DbgMode"]
+    return c
+
+
+def after_core(ctx, baselines, probes, count):
+    import corelib
+    c = core_vocabulary()
+    rng = random.Random(ctx.seed * 7907 + 11)
+    behs = corelib.random_behaviours(c, rng, count, 25, 6)
+    script = dict(seed=ctx.seed, init_level=5, obs=[], probe_sevs=[4], gate_sevs=[], names=sorted(c["names"]),
+                  bool_lists=c["bool_lists"], layouts=c["layouts"], opt_lists=c["opt_lists"], customs=[],
+                  fail_sets=c["fail_sets"], groups=c["groups"], ctx_vals=c["ctx_vals"], call_args=c["call_args"],
+                  flag_sets=c["flag_sets"], behaviours=behs)
+    sp = os.path.join(ctx.scratch, "core-script.json")
+    with open(sp, "w") as fh:
+        json.dump(script, fh)
+    pp = os.path.join(ctx.scratch, "core-probes.json")
+    plain = [p for p in probes if p % 100 in (0, 1, 2, 3, 13)]
+    with open(pp, "w") as fh:
+        json.dump(plain, fh)
+    tp = os.path.join(ctx.scratch, "after-core.ndjson")
+    ctx.run_worker(["pool-after-core", sp, tp, baselines, pp], testing=True, timeout=1800)
+    rows = read_ndjson(tp)
+    out_beh = []
+    for r_ in rows:
+        out_beh.append(dict(history=[], probe=r_["probe"], core_behaviour=behs[r_["b"] - 1]))
+    ctx.extra["api_histories"] = len(behs)
+    return rows, out_beh
+
+
 def run(ctx, replay):
     quick = ctx.quick()
     if replay:
@@ -98,6 +143,14 @@ def run(ctx, replay):
     rows = read_ndjson(tp)
     if len(rows) != len(behaviours):
         raise Undecided("worker produced %d of %d results" % (len(rows), len(behaviours)))
+    if not replay:
+        # histories of ARBITRARY API calls (the whole LoggCore vocabulary on other loggers), then probes
+        extra_rows, extra_beh = after_core(ctx, bl, probes, 120 if quick else 2500)
+        rows += extra_rows
+        behaviours += extra_beh
+        with open(tp, "a") as fh:
+            for r_ in extra_rows:
+                fh.write(json.dumps(r_) + "\n")
     r = ctx.tlc("PoolResidualTrace", "T.cfg", files={"T.cfg": cfg(TREE_RESET, 1000).replace("SPECIFICATION Spec", "SPECIFICATION TSpec")
                 .replace("INVARIANT HistoryIndependent\nVIEW View\n", "INVARIANT Done\n") + "CONSTANT TraceFile = \"trace.ndjson\"\n"},
                 copy={tp: "trace.ndjson"}, workers=1, name="residual-trace", timeout=1800)
@@ -106,7 +159,7 @@ def run(ctx, replay):
         raise Undecided("trace validation did not finish:\n" + r.out[-2000:])
     reused = res[0]["reused"]
     with_hist = sum(1 for b in behaviours if b["history"])
-    if with_hist and reused < with_hist * 0.9:
+    if with_hist and reused < with_hist * 0.9 - len([b for b in behaviours if "core_behaviour" in b]):
         raise Undecided("only %d of %d probes ran on a recycled PrintCtx: the experiment does not exercise the pool" % (reused, with_hist))
     for b in res[0]["bad"]:
         row = rows[b["line"] - 1]
@@ -114,7 +167,8 @@ def run(ctx, replay):
         pid = beh["probe"]
         key = "probe:fmt%d:sev%d" % (pid // 1000, (pid // 100) % 10)
         ctx.finding(key, "probe %d after history %s differs from the same probe on a fresh pool: got %r want %r" % (
-            pid, beh["history"], row.get("got", "")[:300], row.get("want", "")[:300]), dict(kind="history", behaviour=beh))
+            pid, beh.get("core_behaviour", beh["history"]), row.get("got", "")[:300], row.get("want", "")[:300]),
+            dict(kind="history", behaviour=dict(history=beh["history"], probe=beh["probe"]), core_behaviour=beh.get("core_behaviour")))
     ctx.traces += len(rows)
     ctx.evaluations += sum(len(b["history"]) + 2 for b in behaviours)
     ctx.nontrivial += len(set((tuple(b["history"]), b["probe"]) for b in behaviours if b["history"]))
